@@ -1087,8 +1087,8 @@ def replay(run):
         op = compact(trace((names[who],), p)[-1])
         if op != o:
             fam, chk = "cross-class-interference", "projection"
-    print(f"replay {'+'.join(names)} {'.'.join(h)}: outcome {tr[-1]}")
-    print(f"canonical {'.'.join(can)}: outcome {trc[-1]}")
+    print(f"replay {'+'.join(names)} {'.'.join(h)}: outcome {str(tr[-1])[:300]}")
+    print(f"canonical {'.'.join(can)}: outcome {str(trc[-1])[:300]}")
     if fam is not None:
         report(run, names, w.get("independent", True), fam, h, chk)
     run.finish()
